@@ -63,6 +63,12 @@ func jsExpr(e *sx) string {
 		return "(typeof " + e.args[0].name + ")"
 	case "var":
 		return e.args[0].name
+	case "obj":
+		var p []string
+		for _, f := range e.args {
+			p = append(p, f.name+": "+jsExpr(f.args[0]))
+		}
+		return "({" + strings.Join(p, ", ") + "})"
 	case "u":
 		return "(void 0)"
 	case "t":
@@ -148,6 +154,8 @@ func jsStmt(s *sx) string {
 			out += " finally " + jsBlock(s.args[5].args)
 		}
 		return out
+	case "Wi":
+		return "with (" + jsExpr(s.args[0]) + ") " + jsStmt(s.args[1])
 	case "S":
 		out := "switch (" + jsExpr(s.args[0]) + ") {"
 		for _, c := range s.args[1:] {
